@@ -469,7 +469,15 @@ pub fn build(m: &M, route: Route, rng: &mut Rng) -> Envelope {
                 }
                 Route::Detour => {
                     rng.shuffle(&mut order);
+                    // one assertion arrives late: a stand-in holds its place and is replaced at the end
+                    let late: Option<usize> = if order.len() >= 2 && rng.chance(1, 2) { Some(order[rng.below(order.len())]) } else { None };
+                    let stand_in = Envelope::new_assertion("stand-in", rng.next_u64());
                     let mut e = subject;
+                    if let Some(l) = late {
+                        order.retain(|&i| i != l);
+                        // (the model may list the late assertion more than once; all copies are the same)
+                        e = e.add_assertion_envelope(stand_in.clone()).unwrap();
+                    }
                     for (k, i) in order.iter().enumerate() {
                         if k == 0 || rng.chance(1, 3) {
                             let tmp = Envelope::new_assertion("detour", k as u64);
@@ -482,6 +490,10 @@ pub fn build(m: &M, route: Route, rng: &mut Rng) -> Envelope {
                             let a = build(&asr[*i], Route::Plain, rng);
                             e = e.replace_assertion(a.clone(), a).unwrap();
                         }
+                    }
+                    if let Some(l) = late {
+                        let real = build(&asr[l], Route::Plain, rng);
+                        e = e.replace_assertion(stand_in, real).unwrap();
                     }
                     e
                 }
